@@ -1740,10 +1740,11 @@ impl<'a> Sim<'a> {
             ByzOp::InsertOverdraft => {
                 // a correctly signed transfer of more than the stranger account owns
                 let key = self.keys.key(self.cfg.n_accounts).clone();
+                let owned = self.ledger.balances.get(&(key.address_bytes(), asset_id(&denom(0)))).copied().unwrap_or(0);
                 let body = TransactionBody::builder()
                     .actions(vec![Action::Transfer(act::Transfer {
                         to: self.keys.address(0),
-                        amount: 1_000_000,
+                        amount: owned.checked_add(1)?,
                         asset: denom(0),
                         fee_asset: denom(self.cfg.fee_assets[0]),
                     })])
@@ -1961,7 +1962,13 @@ impl<'a> Sim<'a> {
                 ExtMut::DropVote(k) => {
                     let i = *k as usize % votes.len();
                     votes.remove(i);
-                    class = "ext-vote-removed";
+                    if votes.is_empty() {
+                        // an empty extended commit (same round) is always acceptable
+                        valid = true;
+                        class = "ext-all-votes-removed";
+                    } else {
+                        class = "ext-vote-removed";
+                    }
                 }
             }
         }
